@@ -8,7 +8,7 @@ import GoNfsd.Model.AllocTxn
     Lines:  ainit <b|i> <lo> <hi> <mem bits> <disk bits>
             aalloc <b|i> <t> => <n>      (0: the allocator is full)
             afree <b|i> <t> <n>
-            acommit <t> | aabort <t>
+            aprecommit <t> | acommit <t> | aabort <t>
             afreedzero <n> <0|1>
             astate <b|i> <mem bits> <disk bits> -/
 namespace GoNfsd.Driver.AllocTxn
@@ -77,6 +77,7 @@ def stepLine (d : DS) (line : String) : DS × Option String :=
       (d, if wm ≠ mem then some s!"in-memory allocator differs: model {wm}"
           else if wd ≠ disk then some s!"bitmap on the logical disk differs: model {wd}" else none)
     | none => (d, some "bad astate")
+  | ["aprecommit", _] => (d, none)   -- `PreCommit` writes bitmap bits into the transaction's own buffers: no visible effect
   | ["apanic"] => (d, some "the implementation panicked")
   | "config" :: _ => (d, none)
   | _ => (d, some "unknown line")
